@@ -43,12 +43,25 @@ impl Sim {
             Step::Restart { r } => self.step_restart(*r),
             Step::Quiesce => self.step_quiesce(),
         }
+        for r in 0..self.reps.len() {
+            if self.is_file(r) {
+                self.fs_after_call(r);
+            }
+        }
     }
 
     pub fn finish(mut self, steps: Vec<Step>) -> Outcome {
         for (k, v) in aranya_runtime::verif::take_probes() {
             *self.stats.probes.entry(k.to_string()).or_insert(0) += v;
         }
+        if let Some(fs) = &self.fs {
+            for (k, v) in fs.counters() {
+                *self.stats.counters.entry(k.to_string()).or_insert(0) += v;
+            }
+        }
+        // Drop replicas (closing simulated descriptors) before the simulated disk goes away.
+        self.reps.clear();
+        aranya_libc::verif::install(None);
         // Canonical shape of the DAG: parent structure + priorities, ids abstracted by order.
         let mut index: BTreeMap<aranya_runtime::CmdId, usize> = BTreeMap::new();
         let mut order: Vec<_> = self.g.nodes.values().collect();
